@@ -123,12 +123,12 @@ Definition stat (root : node) (p : bytes) : option node :=
   | r => r
   end.
 
-Inductive fkind := KMissing | KFile (size : N) | KDir.
+Inductive fkind := FkMissing | FkFile (size : N) | FkDir.
 Definition kind_of (root : node) (p : bytes) : fkind :=
   match stat root p with
-  | None => KMissing
-  | Some (NFile c) => KFile (lenN c)
-  | Some (NDir _) => KDir
+  | None => FkMissing
+  | Some (NFile c) => FkFile (lenN c)
+  | Some (NDir _) => FkDir
   end.
 
 (** Replace / insert an entry. *)
@@ -265,7 +265,7 @@ Inductive fcheck := ChkViolation | ChkMissing | ChkExists (k : fkind).
 Definition check_file_exists (root : node) (file dir : bytes) : fcheck :=
   if negb (validate_file_path file dir) then ChkViolation
   else match kind_of root file with
-       | KMissing => ChkMissing
+       | FkMissing => ChkMissing
        | k => ChkExists k
        end.
 
@@ -287,7 +287,7 @@ Definition handle_rrq (cfg : srvcfg) (root : node) (st : lstate) (src : N) (name
   | ChkMissing => (st, [AReply true (Error EFileNotFound (msg_not_found_pre ++ path ++ msg_not_found_post))])
   | ChkViolation => (st, [AReply true (Error EAccessViolation (msg_access_pre ++ path))])
   | ChkExists k =>
-    let size := match k with KFile n => n | _ => 0 end in
+    let size := match k with FkFile n => n | _ => 0 end in
     match parse_options os (Some size) default_wopts with
     | None => (st, [])
     | Some (o, os') =>
